@@ -260,6 +260,9 @@ def check(P, R, tier):
     check_glue(P, R)
     check_find_zrng(P, R)
     check_fixpoint(P, R)
+    import zonedecode
+    nz = zonedecode.run(R, P, "RF2-zone")
+    R.floor("RF2-zone", "decoded (zone, cache state, instant) points of the offset lookup", nz, 40000)
     nv = tzrules.cache_validity(P, R, "RF7c-valid")
     R.floor("RF7c-valid", "narrowing reads of the cache / whole-time-line ranges", nv, 2)
 
